@@ -5,31 +5,26 @@ From PV Require Import Base.Prelude Model.ArpSpoof Spec.ArpSpoof Proofs.ArpSpoof
 Open Scope N_scope.
 
 (* ---- confinement ----
-   Full statement: in every run (any event sequence of any length from the initial state) every
-   emitted forged frame (sender IP = router IP, sender MAC = our MAC) is addressed to a MAC that is
-   in the hunt list when it is emitted.  The code violates it in one class (K1: probe-reject for the
-   router's address to an unhunted MAC), hence _refuted + _partial. *)
-Theorem C13_confined_refuted :
-  exists c evs s e out f,
-    cfg_ok c /\ In (s, e, out) (trace c init_state evs) /\ In f out /\ forged c f = true /\
-    hunted s (fedst f) = false.
-Proof. exact confined_refuted. Qed.
-Print Assumptions C13_confined_refuted.
-
-Theorem C13_confined_partial : forall c evs s e out f,
+   Full strength: in every run (any event sequence of any length from the initial state) every emitted
+   forged frame (sender IP = router IP, sender MAC = our MAC) is addressed to a MAC that is in the hunt
+   list when it is emitted.  Full since the repair of K1 (/repo: no probe-reject for the router's own
+   address); before it the statement was refuted by a probe for the router address from an unhunted MAC
+   holding another offer (refutation on the unrepaired model: verif commit dd6b3e8). *)
+Theorem C13_confined : forall c evs s e out f,
   cfg_ok c ->
   In (s, e, out) (trace c init_state evs) -> In f out -> forged c f = true ->
-  known_C13_probe_router c s e = false ->
   hunted s (fedst f) = true.
-Proof. exact confined_partial. Qed.
-Print Assumptions C13_confined_partial.
+Proof. exact confined. Qed.
+Print Assumptions C13_confined.
 
 Example C13_confined_nonvacuous :
   cfg_ok wit_cfg /\
   outputs wit_cfg init_state wit_hunt_run =
     [[]; [announce wit_cfg wit_m1]; [mkFrame 2 wit_m1 (host_mac wit_cfg) (router_ip wit_cfg) wit_m1 3232235522]] /\
-  forallb (fun x => negb (known_C13_probe_router wit_cfg (fst (fst x)) (snd (fst x))))
-          (trace wit_cfg init_state wit_hunt_run) = true.
+  outputs wit_cfg init_state
+    [SetOffer wit_m3 (Some 3232235522); RxArp (mkPkt 1 wit_m3 wit_m3 0 0 3232235531);
+     RxArp (mkPkt 1 wit_m3 wit_m3 0 0 3232235523)] =
+    [[]; []; [probe_reject wit_cfg (mkPkt 1 wit_m3 wit_m3 0 0 3232235523)]].
 Proof. exact confined_nonvacuous. Qed.
 Print Assumptions C13_confined_nonvacuous.
 
@@ -49,8 +44,9 @@ Print Assumptions C13_start_fresh.
 (* ---- receive path: probe-reject and spoof reply, for EVERY state and EVERY packet ----
    The answer of ProcessPacket is exactly what the spec predicates (Spec/ArpSpoof.v, written from the
    property text) demand: a probe is answered with the probe-reject iff the probing MAC holds an offer
-   different from the probed address and the probed address is in the home LAN (and is not link-local:
-   the handler's documented convention); any other packet is answered iff it is a who-has-router
+   different from the probed address and the probed address is in the home LAN (and is neither link-local
+   — the handler's documented convention — nor the router's own address, which confinement forbids);
+   any other packet is answered iff it is a who-has-router
    request from a hunted MAC, and then with the spoof reply; a closed handler answers nothing.
    The state never changes. *)
 Theorem C13_probe_reject_iff : forall c s p,
@@ -67,7 +63,7 @@ Print Assumptions C13_probe_reject_iff.
    the handler is open.  After StopHunt of a's MAC and any events `mid` without a wake-up of loop i, a Close
    or a new StartHunt of that MAC, the NEXT wake-up of loop i emits exactly the packet restoring the router's
    real MAC at a's MAC, loop i has returned, and in every continuation `post` without a StartHunt of that MAC
-   no forged frame is addressed to it any more (outside K1).
+   no forged frame is addressed to it any more.
    Full strength since the repair of DESIGN #27 (loop membership by MAC); before the repair the statement
    was refuted by two hunted MACs sharing an IPv4 address (verif commit e3a3954 has that refutation). *)
 Theorem C13_stop_undone : forall c pre a i mid post,
@@ -81,7 +77,7 @@ Theorem C13_stop_undone : forall c pre a i mid post,
   step c s1 (Wake i) = (s2, [restore c (amac a)]) /\
   loop_is s2 i a false /\
   forall s e out f, In (s, e, out) (trace c s2 post) -> In f out -> forged c f = true ->
-    known_C13_probe_router c s e = false -> fedst f <> amac a.
+    fedst f <> amac a.
 Proof. intros c pre. exact (stop_undone c (final c init_state pre)). Qed.
 Print Assumptions C13_stop_undone.
 
